@@ -39,6 +39,11 @@ def _cases(tier):
                 if variant == "empty_containers" and not any(t in "LD" for t in p):
                     continue
                 yield {"path": "".join(p), "leaf": leaf, "variant": variant}
+                if variant in ("plain", "absent"):
+                    yield {"path": "".join(p), "leaf": leaf, "variant": variant, "key": "orderIds"}
+
+
+KEY = ["a"]
 
 
 def _value(path, leaf, second=False):
@@ -83,6 +88,7 @@ def _empty_variants(path, leaf):
 def _samples(case):
     path, leaf = case["path"], case["leaf"]
     # siblings: a plain pseudo-typed field before and after the pathed one, an int and a plain string
+    KEY[0] = case.get("key", "a")
     base = {"p0": "9", "a": _value(path, leaf), "b": 1, "c": "text", "d": "5.5"}
     out = [base]
     if path.startswith("O"):
@@ -93,6 +99,8 @@ def _samples(case):
             out.append({"p0": "7", "a": v, "b": 3, "c": "t3", "d": "3.5"})
     if case["variant"] == "two_values":
         out.append({"p0": "6", "a": _value(path, leaf, second=True), "b": 4, "c": "t4", "d": "2.5"})
+    if KEY[0] != "a":   # the pathed field lives under a key that needs renaming (camelCase -> snake_case attribute)
+        out = [{(KEY[0] if k == "a" else k): v for k, v in o.items()} for o in out]
     return out
 
 
@@ -169,7 +177,16 @@ def execute(case):
                         Root = prog.mod.__dict__["Root"]
                         hints = prog.hints(("Root",))
                         expected_annotation = "".join({"O": "Optional[", "L": "List[", "D": "Dict[str, "}[t] for t in case["path"])
-                        for i, s in enumerate(samples):
+                        key = case.get("key", "a")
+                        attr = {k: k for k in hints}
+                        if key not in hints:
+                            others = [h for h in hints if h not in ("p0", "b", "c", "d")]
+                            if len(others) != 1:
+                                V("renamed_field_missing", f"fields {list(hints)} for key {key!r}")
+                                continue
+                            attr[key] = others[0]
+                        for i, s0 in enumerate(samples):
+                            s = {attr[k]: v for k, v in s0.items()}
                             try:
                                 inst = Root(**s)
                             except Exception as e:
@@ -181,15 +198,15 @@ def execute(case):
                                 if conv:
                                     exp = _expect(h, orig)
                                     if not _same(got, exp, h):
-                                        V("converted_value_wrong" if name == "a" else "other_field_modified",
+                                        V("converted_value_wrong" if name == attr.get(key, "a") else "other_field_modified",
                                           f"sample#{i} field {name}: annotation {h!r}, original {orig!r}, holds {got!r} ({type(got).__name__}), "
                                           f"expected {exp!r}")
-                                elif fw == "attrs" and (name in ("p0", "d") or (name == "a" and case["path"] in ("", "O")
+                                elif fw == "attrs" and (name in ("p0", "d") or (name == attr.get(key, "a") and case["path"] in ("", "O")
                                                                                   and case["leaf"] in ("IntString", "FloatString"))):
                                     exp = _expect(h, orig)
                                     if not _same(got, exp, h):
                                         V("attrs_field_converter_wrong", f"sample#{i}: {orig!r} -> {got!r}, expected {exp!r}")
-                                elif not (fw == "attrs" and name == "a" and case["path"] in ("", "O")):  # known-finding leaves
+                                elif not (fw == "attrs" and name == attr.get(key, "a") and case["path"] in ("", "O")):  # known-finding leaves
                                     if not (type(got) is type(orig) and got == orig):
                                         V("field_modified_without_converters", f"sample#{i} field {name}: {orig!r} -> {got!r}")
                         obs.append(core.digest(text))
